@@ -115,11 +115,11 @@ SetFuncOK(sig, opt, funcs, logs, e) ==
   /\ \A x \in Methods : e.logs[x] = logs[x]
   /\ \A x \in Methods : e.fnil[x] = (IF x = e.m THEN e.f = Nil ELSE funcs[x] = Nil)
 
-\* "... and nothing else": state of another mock instance is not touched by any operation
-OtherInstanceUntouched(sig, e) == e.by = ByLogs(sig)
+\* "... and nothing else": what another mock instance held before the history started (by0) is not touched
+OtherInstanceUntouched(by0, e) == e.by = by0
 
-StepOK(sig, opt, funcs, logs, e) ==
-  /\ OtherInstanceUntouched(sig, e)
+StepOK(sig, opt, funcs, logs, by0, e) ==
+  /\ OtherInstanceUntouched(by0, e)
   /\ CASE e.op = "call"     -> CallOK(sig, opt, funcs, logs, e)
        [] e.op = "resetm"   -> ResetEmptiesOnlyItsTarget(sig, opt, funcs, logs, e)
        [] e.op = "resetall" -> ResetEmptiesOnlyItsTarget(sig, opt, funcs, logs, e)
@@ -127,8 +127,8 @@ StepOK(sig, opt, funcs, logs, e) ==
        [] OTHER -> FALSE
 
 \* diagnosis only (which clause rejected a step); the verdict is StepOK
-FailedClause(sig, opt, funcs, logs, e) ==
-  IF ~OtherInstanceUntouched(sig, e) THEN "OtherInstanceUntouched"
+FailedClause(sig, opt, funcs, logs, by0, e) ==
+  IF ~OtherInstanceUntouched(by0, e) THEN "OtherInstanceUntouched"
   ELSE IF e.op = "call" THEN
        LET m == e.m
            grow == Len(e.logs[m]) - Len(logs[m])
